@@ -394,7 +394,7 @@ theorem inv_step (s s' : State) (a : Action) (hi : Inv s) (hs : step s a = .ok s
     split at hs
     · cases hs; exact hi
     · split at hs
-      · cases hs
+      · cases hs; exact hi
       · cases hs
         obtain ⟨h1, h2, h3, h4, h5, h6⟩ := hi
         have hid := map_id_eq s.pending (fun q => if q.id == r.id then { q with slot := some r } else q)
@@ -515,7 +515,7 @@ theorem fresh_step (s s' : State) (a : Action) (rest : List Action) (hs : step s
     split at hs
     · cases hs; exact hfr'
     · split at hs
-      · cases hs
+      · cases hs; exact hfr'
       · cases hs
         intro q hq r' hr'
         simp only [List.mem_map] at hq
@@ -575,16 +575,7 @@ theorem not_blocked (s : State) (a : Action) (rest : List Action) (hi : Inv s)
     simp only [step] at hb
     split at hb
     · cases hb
-    · rename_i p hf
-      split at hb
-      · rename_i hsome
-        have hp := List.mem_of_find?_eq_some hf
-        have hid : p.id = r.id := by simpa using List.find?_some hf
-        obtain ⟨r', hr'⟩ := Option.isSome_iff_exists.1 hsome
-        have h1 := hi.slot p hp r' hr'
-        apply hfr p hp r' hr'
-        simp [recvId, h1, hid]
-      · cases hb
+    · split at hb <;> cases hb
 
 theorem nb_aux (sched : List Action) : ∀ s, Inv s → (sched.filterMap recvId).Nodup → Fresh s sched →
     (run s sched).isSome = true := by
@@ -599,6 +590,40 @@ theorem nb_aux (sched : List Action) : ∀ s, Inv s → (sched.filterMap recvId)
       exact ih s1 (inv_step s s1 a hi hs) (nodup_tail a rest hn) (fresh_step s s1 a rest hs hn hfr)
     · exact ih s hi (nodup_tail a rest hn) (fresh_tail s a rest hfr)
     · rename_i hb; exact absurd hb hnb
+
+/-- No step blocks: a response for an id whose first response has not been taken yet is dropped. -/
+theorem step_not_blocked (s : State) (a : Action) : step s a ≠ .blocked := by
+  intro hb
+  cases a with
+  | call t => simp only [step] at hb; split at hb <;> cases hb
+  | cancel t => simp only [step] at hb; split at hb <;> cases hb
+  | finishRecv t =>
+    simp only [step] at hb
+    split at hb
+    · split at hb <;> cases hb
+    · cases hb
+  | finishCancel t =>
+    simp only [step] at hb
+    split at hb
+    · split at hb <;> cases hb
+    · cases hb
+  | recv r =>
+    simp only [step] at hb
+    split at hb
+    · cases hb
+    · split at hb <;> cases hb
+
+/-- The read loop never blocks, whatever the peer sends - duplicated responses included. -/
+theorem never_blocked_any (sched : List Action) : ∀ s, (run s sched).isSome = true := by
+  induction sched with
+  | nil => intro s; rfl
+  | cons a rest ih =>
+    intro s
+    simp only [run]
+    split
+    · exact ih _
+    · exact ih _
+    · rename_i hb; exact absurd hb (step_not_blocked s a)
 
 /-- With a peer that answers each id at most once the read loop never blocks. -/
 theorem never_blocked (sched : List Action) (hn : (sched.filterMap recvId).Nodup) : (run {} sched).isSome = true :=
